@@ -88,6 +88,14 @@ def isCallbackNative (name : String) : Option IterKind :=
   | "Array#map" => some .map | "Array#filter" => some .filter | "Array#any" => some .any
   | "Array#all" => some .all | "Array#reduce" => some .reduce | _ => none
 
+/-- `if (function->Invoke({ item }))` in array-script.cpp:176, 196, 214: the C++ converts the result with
+    `operator double()` (not `ToBool`): strings are parsed as numbers, objects throw. -/
+def cbTruth (v : Value N) : Option Bool :=
+  match v with
+  | .num _ | .bool _ | .empty => some (!(Num.eq v.toDouble (nzero : N)))
+  | .str s => if s == "" then some false else none
+  | _ => none
+
 def isFunction (v : Value N) : Bool := match v with | .fn _ | .native _ => true | _ => false
 
 def eval : Nat → Frame N → Task N → State N → Res N
@@ -176,9 +184,18 @@ def eval : Nat → Frame N → Task N → State N → Res N
         bindV (eval f fr (.call cb .empty cargs) st) fun r st1 =>
           match kind with
           | .map => eval f fr (.iter kind cb rest (r :: acc)) st1
-          | .filter => eval f fr (.iter kind cb rest (if truthy st1 r then x :: acc else acc)) st1
-          | .any => if truthy st1 r then (.val .ok (.bool true), st1) else eval f fr (.iter kind cb rest acc) st1
-          | .all => if !truthy st1 r then (.val .ok (.bool false), st1) else eval f fr (.iter kind cb rest acc) st1
+          | .filter =>
+            match cbTruth r with
+            | some t => eval f fr (.iter kind cb rest (if t then x :: acc else acc)) st1
+            | none => (.err (.unmodelled "callback result to double"), st1)
+          | .any =>
+            match cbTruth r with
+            | some t => if t then (.val .ok (.bool true), st1) else eval f fr (.iter kind cb rest acc) st1
+            | none => (.err (.unmodelled "callback result to double"), st1)
+          | .all =>
+            match cbTruth r with
+            | some t => if !t then (.val .ok (.bool false), st1) else eval f fr (.iter kind cb rest acc) st1
+            | none => (.err (.unmodelled "callback result to double"), st1)
           | .reduce => eval f fr (.iter kind cb rest [r]) st1
     -- ------------------------------------------------------------------------------------------ references
     | .ref e initDict =>
@@ -186,11 +203,11 @@ def eval : Nat → Frame N → Task N → State N → Res N
       | .var x =>                                                   -- expression.cpp:125-150
         if (localsGet st fr x).isSome then (.ref (.dict fr.locals) x, st)
         else if selfUsable fr && hasOwnField st fr.self x then (.ref fr.self x, st)
-        else if systemFunctions.contains x then
-          if fr.depth + 2 > depthLimit then (.err stackErr, st) else (.ref .sysns x, st.noteDepth (fr.depth + 2))
-        else if fr.depth + 3 > depthLimit then (.err stackErr, st.noteDepth (min depthLimit (fr.depth + 2)))
-        else if kvHas x st.globals then (.ref .ns x, st.noteDepth (fr.depth + 3))
-        else (.ref fr.self x, st.noteDepth (fr.depth + 3))
+        -- (the imports are looked up here as well; observed on the real evaluator: no frame-depth error arises from this
+        --  lookup at the limit — `dict149` of the deep-nesting stream — so the reference path carries no depth check)
+        else if systemFunctions.contains x then (.ref .sysns x, st)
+        else if kvHas x st.globals then (.ref .ns x, st)
+        else (.ref fr.self x, st)
       | .index a b =>                                               -- expression.cpp:751-802
         let parentRes : Res N :=
           match eval f fr (.ref a initDict) st with
@@ -218,7 +235,10 @@ def eval : Nat → Frame N → Task N → State N → Res N
           | r => r
         bindV parentRes fun p st3 =>
           match eval f fr (.expr b) st3 with
-          | (.val _ iv, st4) => (.ref p iv.toStr, st4)              -- :788-789
+          | (.val _ iv, st4) =>                                     -- :788-789
+            match iv.toStr? with
+            | some i => (.ref p i, st4)
+            | none => (.err (.unmodelled "container to string"), st4)
           | r => r
       | _ => (.noref, st)                                           -- expression.cpp:66-69
     -- ------------------------------------------------------------------------------------------ expressions
@@ -281,7 +301,10 @@ def eval : Nat → Frame N → Task N → State N → Res N
             | _ => (.err (.script .inrhs "Invalid right side argument for 'in' operator"), st1)
       | .index a b =>                                               -- expression.cpp:740-749
         bindV (eval f fr (.expr a) st) fun va st1 =>
-          bindV (eval f fr (.expr b) st1) fun vb st2 => liftE (getField st2 va vb.toStr, st2)
+          bindV (eval f fr (.expr b) st1) fun vb st2 =>
+            match vb.toStr? with
+            | some i => liftE (getField st2 va i, st2)
+            | none => (.err (.unmodelled "container to string"), st2)
       | .call fe args =>                                            -- expression.cpp:449-494
         let fres : Except Err (Value N × Value N) × State N :=
           match eval f fr (.ref fe false) st with
@@ -363,7 +386,10 @@ def eval : Nat → Frame N → Task N → State N → Res N
       | .brk => (.val .brk .empty, st)
       | .cont => (.val .cont .empty, st)
       | .throw a =>                                                 -- expression.cpp:849-855
-        bindV (eval f fr (.expr a) st) fun v st1 => (.err (.script .user v.toStr), st1)
+        bindV (eval f fr (.expr a) st) fun v st1 =>
+          match v.toStr? with
+          | some m => (.err (.script .user m), st1)
+          | none => (.err (.unmodelled "container to string"), st1)
       | .try a b =>                                                 -- expression.cpp:1055-1066
         match eval f fr (.expr a) st with
         | (.val .ok _, st1) => (.val .ok .empty, st1)
